@@ -87,6 +87,12 @@ type service struct {
 	// such as ClientId, KeepAlive, Username, etc
 	sess *sessions.Session
 
+	// cmsg and will are the CONNECT and the will message of this connection
+	// (server side). The session keeps them too, but there they are replaced
+	// when a successor with the same client ID resumes the session.
+	cmsg *message.ConnectMessage
+	will *message.PublishMessage
+
 	// Wait for the various goroutines to finish starting and stopping
 	wgStarted sync.WaitGroup
 	wgStopped sync.WaitGroup
@@ -253,9 +259,9 @@ func (svc *service) stop() {
 	}
 
 	// Publish will message if WillFlag is set. Server side only.
-	if !svc.client && svc.sess.Cmsg.WillFlag() {
+	if !svc.client && svc.cmsg != nil && svc.cmsg.WillFlag() {
 		log.Warningf("(%s) Connection unexpectedly closed, sending will message", svc.cid())
-		svc.onPublish(svc.sess.Will)
+		svc.onPublish(svc.will)
 	}
 
 	// Remove the client topics manager
